@@ -362,6 +362,34 @@ def cooperative_events(ctx, R):
             ctx.produced("coop-best-" + mode, "tree", "grow", d, r[1])
 
 
+def simplegp_events(ctx, R):
+    """the one-call front end (geml.simplegp.SimpleGP) with each of the representation names it documents: what the
+    fitness function is handed and what the search returns are programs"""
+    from geml.simplegp import SimpleGP
+    allowed = ctx.b.spec.get("reps") if isinstance(ctx.b.spec, dict) else None
+    names = {"treebased": "tree", "ge": "ge", "sge": "sge", "dsge": "dsge", "stack": "stack"}
+    for name, rep in names.items():
+        if allowed and rep not in allowed:
+            continue
+        seen = []
+
+        def f(p):
+            seen.append(p)
+            return float(len(seen) % 3)
+
+        def run():
+            sg = SimpleGP(f, ctx.g, minimize=False, representation=name, max_depth=ctx.mind + 2, max_time=10 ** 6,
+                          max_evaluations=8, seed=R.randint(0, 10 ** 6), population_size=4, elitism=1, novelty=1)
+            return sg.search()
+        d = ctx.mind + 2
+        r = ctx.attempt("simplegp", rep, "grow", d, run, None, project=False)
+        for p in seen[:6]:
+            ctx.produced("simplegp-arg", rep, "grow", d, p)
+        if r is not None:
+            best = r[0] if isinstance(r, list) else r
+            ctx.produced("simplegp-best", rep, "grow", d, best.get_phenotype())
+
+
 def run_grammar(spec, prop, R, tier, batch, stats):
     b = GR.build_raw(spec) if "source" in spec else GR.build(spec)
     try:
@@ -431,6 +459,7 @@ def run_grammar(spec, prop, R, tier, batch, stats):
                 initial_population_events(ctx, R, d)
                 if "source" not in spec and mind <= 4:
                     cooperative_events(ctx, R)
+                    simplegp_events(ctx, R)
         cfg = {"k": "syn", "g": ctx.decl, "impl0": ctx.impl0, "feats": spec.get("feats", []),
                "annot": "strings" if spec.get("postponed") else "objects", "expd": False}
         batch.trace(spec["id"], ctx.events, cfg)
